@@ -65,7 +65,22 @@ def fmtArrElem (dt : DType) (e : SExpr K) : Except Err (List (Frag K)) :=
   | .int, .num (.int i) => .ok [.int i]
   | .float, .num (.real x) => .ok [.flt x]
   | .complex, .num (.cplx a b) => .ok [.cplx a b]
+  -- arrays containing free parameters: `_scalar_to_blackbird`
+  | .object, .num n => .ok (fmtNumC n)
+  | .object, e => .ok [.sym e]
   | _, _ => .error .value                  -- "Array … is of unsupported type"
+
+def isNumS : SExpr K → Option (Num K)
+  | .num n => some n
+  | _ => none
+
+/-- declared element type written for an array with free parameters: that of the most general
+numeric element (float if there is none) -/
+def objectArrayType (flat : List (SExpr K)) : String :=
+  let nums := flat.filterMap isNumS
+  if nums.any (fun n => match n with | .cplx _ _ => true | _ => false) then "complex"
+  else if !nums.isEmpty && nums.all (fun n => match n with | .int _ => true | _ => false) then "int"
+  else "float"
 
 def chunk {α} (n : Nat) : Nat → List α → List (List α)
   | 0, _ => []
@@ -77,13 +92,12 @@ def dtypeName : DType → String
 /-- `numpy_to_blackbird(A, name)`: header, one line per row, one empty line -/
 def arrayDecl (name : String) (dt : DType) (r c : Nat) (flat : List (SExpr K)) :
     Except Err (List (Line K)) := do
-  if dt = .object then .error .value
-  else
-    let header : Line K := [.txt (dtypeName dt ++ " array " ++ name ++ "[" ++ toString r ++ ", " ++ toString c ++ "] =")]
-    let rows ← (chunk c r flat).mapM fun row => do
-      let cells ← row.mapM (fmtArrElem dt)
-      .ok ([Frag.txt "    "] ++ joinFrags ", " cells)
-    .ok ([header] ++ rows ++ [[]])
+  let tyName := if dt = .object then objectArrayType flat else dtypeName dt
+  let header : Line K := [.txt (tyName ++ " array " ++ name ++ "[" ++ toString r ++ ", " ++ toString c ++ "] =")]
+  let rows ← (chunk c r flat).mapM fun row => do
+    let cells ← row.mapM (fmtArrElem dt)
+    .ok ([Frag.txt "    "] ++ joinFrags ", " cells)
+  .ok ([header] ++ rows ++ [[]])
 
 /-- state of the serialiser's loop over operations -/
 structure SerState (K : Type) where
